@@ -390,5 +390,5 @@ func TestC32(t *testing.T) {
 			}
 		}
 	}
-	lib.Check(t, spec, lib.Scale(16, 800), gen, run)
+	lib.Check(t, spec, lib.Scale(16, 400), gen, run)
 }
